@@ -189,15 +189,19 @@ func pkgReserialise(b []byte, salt int) ([]byte, error) {
 			out.WriteString("<" + pkgQName(t.Name))
 			for _, a := range t.Attr {
 				out.WriteString("\n " + pkgQName(a.Name) + " = '")
-				for _, r := range a.Value {
-					switch r {
-					case '&':
+				for i, r := range a.Value {
+					switch {
+					case r == '>' && i >= 2 && a.Value[i-2:i] == "]]":
+						// legal raw in an attribute value, but encoding/xml (the library's reader and this harness's
+						// well-formedness check) rejects the sequence ]]> everywhere outside CDATA
+						out.WriteString("&gt;")
+					case r == '&':
 						out.WriteString("&amp;")
-					case '<':
+					case r == '<':
 						out.WriteString("&lt;")
-					case '\'':
+					case r == '\'':
 						out.WriteString("&apos;")
-					case '\t', '\n', '\r':
+					case r == '\t' || r == '\n' || r == '\r':
 						fmt.Fprintf(&out, "&#%d;", r)
 					default:
 						out.WriteRune(r)
